@@ -138,6 +138,25 @@ def spec_hash(*files):
 _built = {}
 
 
+def binding_selftest(ck, module, cfg, trace_path, corrupt, label, **tlc_kw):
+    """Demonstrates that the trace specification is bound to what was recorded: a copy of the accepted recording with
+    ONE field changed (by `corrupt(events) -> description or None`) must be rejected.  An accepted corrupted trace means
+    the trace specification constrains nothing there: a tool error (vacuous binding), never a verdict about the code."""
+    evs = [json.loads(l) for l in open(trace_path)]
+    what = corrupt(evs)
+    if what is None:
+        ck.notes.append("binding self-test (%s): no suitable event to corrupt in this recording" % label)
+        return
+    bad = trace_path + ".corrupt"
+    with open(bad, "w") as f:
+        for e in evs:
+            f.write(json.dumps(e) + "\n")
+    t = run_tlc(module, cfg, workers=1, env={"TRACE": bad}, deque=True, xss="1g", coverage=False, name=label.replace(" ", "") + "selftest", **tlc_kw)
+    if trace_rejection(t) is None and t.get("ok"):
+        raise ToolError("%s accepts a recording in which %s: the trace specification is not bound to the implementation there" % (module, what))
+    ck.cov.setdefault("binding_selftests", []).append({"trace_spec": module, "corruption": what, "rejected": True})
+
+
 def repo_content_hash():
     """Content hash of everything in /repo that reaches the build (cargo's own freshness test is by mtime only)."""
     import hashlib
